@@ -24,7 +24,8 @@ def gen(rng, tier):
     ctx = G.Ctx(rng)
     names = sorted(G.OPS)
     ctx.enabled = G.swarm_subset(rng, names, 0.75, always=("from_array", "binary", "rechunk", "reduction"))
-    ctx.weights = {"random": 0.6, "map_blocks": 1.2}
+    ctx.weights = {"random": 0.6, "map_blocks": 1.2, "diag_ops": 2.0}
+    ctx.enabled.add("diag_ops")
     ctx.p_masked = rng.choice([0.0, 0.05, 0.2])
     ctx.p_simsource = rng.choice([0.0, 0.3])
     ctx.allow_unknown = rng.random() < 0.6
